@@ -3,6 +3,7 @@ package main
 // Symbolic executor / VC generator over go/ssa (NaiveForm | InstantiateGenerics).
 
 import (
+	"os"
 	"fmt"
 	"go/token"
 	"go/types"
@@ -67,6 +68,11 @@ type Exec struct {
 
 	usedContracts map[string]bool
 	coverSeen     map[string]int
+	lastWrittenOld map[string]bool // result of the last dry run: regions written at pre-existing objects
+	dryFresh      map[string]bool // objects allocated during the current loop dry run
+	invDepth      int
+	inInvariant   bool     // evaluating loop invariants (identifier fallbacks that are safe for lemmas only)
+	rebound       []string // loop invariants re-bound from a stale key to a moved loop
 	dryAborted    string // non-empty: the last loop dry run hit a subset error (its write set is unreliable)
 	trackedChans  map[string]types.Type // channel terms made for a local variable listed in the contract's tokens clause
 	usedRegex     map[string]bool
@@ -470,7 +476,7 @@ func loopOrdinal(b *ssa.BasicBlock) int {
 
 func (ex *Exec) loopHeader(st *State, b *ssa.BasicBlock) bool {
 	fr := st.top()
-	key := fmt.Sprintf("%s#%d", baseFn(fr.fn), loopOrdinal(b))
+	key := fmt.Sprintf("%s#%d", ex.w.contractBaseFn(fr.fn), loopOrdinal(b))
 	invs := ex.contract.loopInvs(key)
 	if invs == nil {
 		// a loop of a callee executed in place: its invariants are those of the nearest enclosing function under contract
@@ -482,6 +488,12 @@ func (ex *Exec) loopHeader(st *State, b *ssa.BasicBlock) bool {
 			}
 		}
 	}
+	if invs == nil {
+		invs = ex.staleKeyInvariants(st, key)
+	}
+	ex.invDepth++
+	ex.inInvariant = true
+	defer func() { ex.invDepth--; ex.inInvariant = ex.invDepth > 0 }()
 	if fr.active[b.Index] {
 		// back edge
 		for _, inv := range invs {
@@ -502,6 +514,7 @@ func (ex *Exec) loopHeader(st *State, b *ssa.BasicBlock) bool {
 	// write set by dry run
 	ex.dryAborted = ""
 	regs, cells := ex.collectWrites(st, b)
+	ex.inInvariant = true
 	if ex.dryAborted != "" {
 		msg := ex.dryAborted
 		ex.dryAborted = ""
@@ -511,8 +524,22 @@ func (ex *Exec) loopHeader(st *State, b *ssa.BasicBlock) bool {
 		ex.subsetFail(st, "the write set of loop "+key+" could not be determined: "+msg)
 		return true
 	}
+	aPre := st.region("A", arr("Int", "Bool"))
+	oldW := ex.lastWrittenOld
 	for _, r := range regs {
+		pre := st.heap[r]
+		if srt, ok := ex.regSorts[r]; ok && pre == "" {
+			pre = st.region(r, srt)
+		}
 		st.havocRegion(r)
+		// a region the body only writes at objects it allocates itself: objects that existed before the loop keep
+		// their values in it
+		if pre != "" && oldW != nil && !oldW[r] && r != "A" && (strings.HasPrefix(r, "F!") || strings.HasPrefix(r, "M!") || strings.HasPrefix(r, "S!") || strings.HasPrefix(r, "B!")) {
+			if strings.HasPrefix(ex.regSorts[r], "(Array Int ") {
+				nw := st.heap[r]
+				st.assume("(forall ((r Int)) (! (=> (select " + aPre + " r) (= (select " + nw + " r) (select " + pre + " r))) :pattern ((select " + nw + " r))))")
+			}
+		}
 	}
 	for _, c := range cells {
 		if v, ok := st.cells[c]; ok {
@@ -526,7 +553,11 @@ func (ex *Exec) loopHeader(st *State, b *ssa.BasicBlock) bool {
 		}
 	}
 	for _, inv := range invs {
-		st.assume(ex.evalBool(st, inv.expr, nil))
+		t := ex.evalBool(st, inv.expr, nil)
+		if os.Getenv("GOVC_DEBUG_INV") != "" {
+			fmt.Fprintf(os.Stderr, "INV %s[%s] := %s\n", key, inv.label, trunc(t, 300))
+		}
+		st.assume(t)
 	}
 	fr.active[b.Index] = true
 	return false
@@ -566,12 +597,18 @@ func (ex *Exec) collectWrites(st *State, b *ssa.BasicBlock) ([]string, []int) {
 	d := st.clone()
 	d.dry = true
 	d.written = map[string]bool{}
+	d.writtenOld = map[string]bool{}
 	d.writtenCells = map[int]bool{}
+	if ex.dryFresh == nil {
+		ex.dryFresh = map[string]bool{}
+		defer func() { ex.dryFresh = nil }()
+	}
 	// havoc everything so that every syntactic path of the body is explored
 	for _, r := range sortedKeys(ex.regSorts) {
 		d.havocRegion(r)
 	}
 	d.written = map[string]bool{}
+	d.writtenOld = map[string]bool{}
 	for id, v := range d.cells {
 		d.cells[id] = d.rehavoc(v)
 	}
@@ -608,6 +645,7 @@ func (ex *Exec) collectWrites(st *State, b *ssa.BasicBlock) ([]string, []int) {
 			st.writtenCells[c] = true
 		}
 	}
+	ex.lastWrittenOld = d.writtenOld
 	return sortedKeys(d.written), cells
 }
 
@@ -1521,7 +1559,7 @@ func mapValRegion(mt *types.Map, lf leaf) (string, string) {
 func (ex *Exec) mapInit(st *State, mt *types.Map, r string) {
 	dom, ds := mapRegions(mt)
 	_, inner := arraySorts(ds)
-	st.setRegion(dom, ds, store(st.region(dom, ds), r, zeroTerm(inner)))
+	st.setRegionAt(dom, ds, store(st.region(dom, ds), r, zeroTerm(inner)), r)
 }
 
 func (st *State) mapHas(mt *types.Map, m, k string) string {
@@ -1582,7 +1620,7 @@ func flatten(v Val, ex *Exec) []string {
 func (st *State) mapSet(mt *types.Map, m, k string, v Val) {
 	dom, ds := mapRegions(mt)
 	d := st.region(dom, ds)
-	st.setRegion(dom, ds, store(d, m, store(sel(d, m), k, "true")))
+	st.setRegionAt(dom, ds, store(d, m, store(sel(d, m), k, "true")), m)
 	lfs := leaves(mt.Elem())
 	ts := flatten(v, st.ex)
 	if len(ts) != len(lfs) {
@@ -1591,14 +1629,14 @@ func (st *State) mapSet(mt *types.Map, m, k string, v Val) {
 	for i, lf := range lfs {
 		reg, s := mapValRegion(mt, lf)
 		a := st.region(reg, s)
-		st.setRegion(reg, s, store(a, m, store(sel(a, m), k, ts[i])))
+		st.setRegionAt(reg, s, store(a, m, store(sel(a, m), k, ts[i])), m)
 	}
 }
 
 func (st *State) mapDelete(mt *types.Map, m, k string) {
 	dom, ds := mapRegions(mt)
 	d := st.region(dom, ds)
-	st.setRegion(dom, ds, store(d, m, store(sel(d, m), k, "false")))
+	st.setRegionAt(dom, ds, store(d, m, store(sel(d, m), k, "false")), m)
 }
 
 func (ex *Exec) mapUpdate(st *State, in *ssa.MapUpdate) {
@@ -1730,4 +1768,65 @@ func (ex *Exec) runDefers(st *State, k func(*State)) {
 	ex.callVal(st, d.site, d.call, d.fn, d.args, func(st *State, _ Val) {
 		ex.runDefers(st, k)
 	})
+}
+
+// staleKeyInvariants: the loop at key has no invariants of its own. If the nearest enclosing function under contract has
+// invariants under exactly one key whose loop no longer exists in that function (the loop was moved into a helper that
+// is executed in place), they are tried for this loop: if they do not fit, the obligations fail as usual.
+func (ex *Exec) staleKeyInvariants(st *State, key string) []clause {
+	for i := len(st.frames) - 1; i >= 0; i-- {
+		f := st.frames[i].fn
+		if f.Parent() != nil {
+			continue
+		}
+		var ct *Contract
+		if f == ex.root {
+			ct = ex.contract
+		} else {
+			ct = ex.w.contractFor(f)
+		}
+		if ct == nil || len(ct.loops) == 0 {
+			continue
+		}
+		// keys of ct that name loops of f itself (or of functions still executed in place under that name)
+		live := map[string]bool{}
+		var mark func(fn *ssa.Function, depth int)
+		seen := map[*ssa.Function]bool{}
+		mark = func(fn *ssa.Function, depth int) {
+			if seen[fn] || depth > 6 || fn.Blocks == nil {
+				return
+			}
+			seen[fn] = true
+			for _, b := range fn.Blocks {
+				if isLoopHeader(b) {
+					live[fmt.Sprintf("%s#%d", ex.w.contractBaseFn(fn), loopOrdinal(b))] = true
+				}
+				for _, in := range b.Instrs {
+					switch x := in.(type) {
+					case *ssa.Call:
+						if sc := x.Common().StaticCallee(); sc != nil && strings.HasPrefix(fnPkgPath(sc), modulePath) {
+							mark(sc, depth+1)
+						}
+					case *ssa.MakeClosure:
+						if cf, ok := x.Fn.(*ssa.Function); ok {
+							mark(cf, depth+1)
+						}
+					}
+				}
+			}
+		}
+		mark(f, 0)
+		var stale []string
+		for k := range ct.loops {
+			if !live[k] {
+				stale = append(stale, k)
+			}
+		}
+		if len(stale) == 1 {
+			ex.rebound = append(ex.rebound, stale[0]+" -> "+key)
+			return ct.loops[stale[0]]
+		}
+		return nil
+	}
+	return nil
 }
